@@ -24,10 +24,10 @@ Lemma gen_report_sender_processRTP_eq use st now seq ts payload :
     (SenderStream.s_started st', SenderStream.s_ref_rtp st', SenderStream.s_ref_time st',
      SenderStream.s_last_sn st', SenderStream.s_pc st', SenderStream.s_oc st').
 Proof.
+  (* semantic: unfold both sides, one case per test, arithmetic by lia *)
   destruct st as [started refrtp reftime lastsn pc oc].
-  unfold g_report_senderStream_processRTP, SenderStream.s_rtp, sub16, add32, u32.
   cbn [SenderStream.s_started SenderStream.s_ref_rtp SenderStream.s_ref_time SenderStream.s_last_sn SenderStream.s_pc SenderStream.s_oc].
-  cbv zeta. rewrite Z.gtb_ltb.
-  destruct use, started, (0 <? (seq - lastsn) mod 65536), ((seq - lastsn) mod 65536 <? 32768), (ts =? refrtp);
-    reflexivity.
+  gnorm. unfold SenderStream.s_rtp, sub16, add32, u32.
+  cbn [SenderStream.s_started SenderStream.s_ref_rtp SenderStream.s_ref_time SenderStream.s_last_sn SenderStream.s_pc SenderStream.s_oc].
+  destruct use, started; cbn [negb orb andb]; tie_cases.
 Qed.
